@@ -22,6 +22,13 @@ CLAIMS = {
         "note": "Undecided: the Slice/SliceOpt operand-validation arm of interpret, character-wise string handling beyond bounded harnesses. Assumed: i128::saturating_add and Ord::clamp contracts.",
         "design_ref": "DESIGN.md section 4 C14, Appendix A.1",
     },
+    "C16": {
+        "engine": "V",
+        "technique": "Verus on the extracted real sort / unique / first / last / nth against specifications over an abstract order (C15's laws assumed): loop invariant with a ghost position map for unique, std's stable-sort contract at the named sort_by sites",
+        "text": "Proof, unbounded, given a lawful order: unique returns, in first-occurrence order, exactly the first member of every class of equal elements (well-ordering lemma proved); sort returns a permutation of its input that is non-decreasing and keeps equal keys in input order, both plainly and by attribute (every element must have the attribute), and accepts only sequences whose adjacent non-none keys are comparable; first/last/nth agree with indexing and yield none out of range.",
+        "note": "Assumed: Ord for Value is total/transitive with Equal only for == (C15: engine K on scalars, fix fb33f23 for arrays/maps), std's contracts of sort_by (stable) / BTreeSet / to_vec; ensure_comparable's own body (it takes impl Iterator: not extractable) and get_from_path are trusted declarations; group_by, join/split, reverse/length are not decided.",
+        "design_ref": "DESIGN.md section 4 C16",
+    },
     "C17": {
         "engine": "V+K",
         "technique": "Verus proof of the real functions::range (exact progression, overflow freedom, cap); Kani full-domain harnesses on numeric tests and conversions",
